@@ -73,7 +73,7 @@ def modules_in(x, out=None, depth=0):
     return out
 
 
-THREAD_ACTIONS = ["deepcopy_inst", "protect_value", "with_payload", "construct", "deepcopy_value"]
+THREAD_ACTIONS = ["deepcopy_inst", "protect_value", "with_payload", "construct", "deepcopy_value", "failing_copy"]
 
 
 def do_copy_action(world, shared, act):
@@ -93,6 +93,15 @@ def do_copy_action(world, shared, act):
         n = len(shared["insts"])
         src = [shared["insts"][act["i"] % n], {"k": [shared["insts"][(act["i"] + 1) % n]]}]
         res = copy.deepcopy(src)
+    elif kind == "failing_copy":
+        # a copy that user code aborts (the value refuses to be copied): it raises here, in this thread only, and
+        # must not disturb the copies other threads have in flight
+        try:
+            protect_via_deepcopy([1, world.build(["bomb"], False)] if act["i"] % 2 else
+                                 {"k": [world.build(["bomb"], False)]})
+        except ValueError:
+            return {"kind": kind, "raised": "ValueError"}
+        return {"kind": kind, "raised": None}
     elif kind == "with_payload":
         src = shared["insts"][act["i"] % len(shared["insts"])]
         res = getattr(src, "with_" + act["attr"])(world.build(act["v"], False))
@@ -114,7 +123,11 @@ class C20(HistoryCheck):
     RUNS = {"quick": 1500, "thorough": 24000}
     PROFILE = {"kinds": ALL_KINDS + ["any", "any"], "force_kinds": ["any"], "allow_frozen": False,
                "allow_class_dnc": False, "n_attrs": (2, 5)}
-    OPGEN = {"p_bad": 0.15, "p_inplace": 0.3,
+    # values in which a nested protected copy fails and is recovered from, with a module still to come
+    ANY_EXTRA = [["list", [["catchbomb"], ["mod", "os"]]],
+                 ["list", [["catchbomb"], ["dict", [["m", ["mod", "sys"]]]]]],
+                 ["dict", [["a", ["catchbomb"]], ["b", ["list", [["mod", "math"]]]]]]]
+    OPGEN = {"p_bad": 0.15, "p_inplace": 0.3, "any_extra": ANY_EXTRA,
              "weights": {"new": 3, "scalar": 6, "element": 5, "toplevel": 3, "set": 2, "del": 2, "get": 0.3,
                          "deepcopy": 4}}
     N_OPS = {"quick": (5, 14), "thorough": (8, 24)}
@@ -179,7 +192,12 @@ class C20(HistoryCheck):
             ctx.bump("fired_" + out.fired[0])
         label = op["op"] if op["op"] != "call" else "call:" + op["m"].split("_")[0]
         ctx.cell("seq", label, fk, site if out.fired else out.status)
-        if op["op"] == "deepcopy" and out.status == "exc":
+        if plan is None and out.status == "exc" and ("cannot pickle 'module'" in str(out.exc)
+                                                      or (isinstance(out.exc, KeyError) and "ModuleType" in repr(out.exc))):
+            # whatever the operation: executed fault-free, the library's copy machinery choked on a module
+            ctx.violate({"invariant": "copy_succeeds", "mode": "seq", "op": label, "exc": out.exc_type(), "wrap": op.get("wrap", 0)},
+                        {"op": op, "msg": strip_addr(str(out.exc))[:200]}, step=idx)
+        elif op["op"] == "deepcopy" and out.status == "exc":
             # a copy of (containers of) spec instances must succeed, whatever module-bearing values they hold
             ctx.violate({"invariant": "copy_succeeds", "mode": "seq", "op": label, "exc": out.exc_type(),
                          "wrap": op.get("wrap", 0)}, {"op": op, "msg": strip_addr(str(out.exc))[:200]}, step=idx)
@@ -252,6 +270,8 @@ class C20(HistoryCheck):
             insts.append(kw)
         values = [good_value(src, "any") for _ in range(src.randint(1, 3))]
         values.append(["list", [["mod", "sys"], ["dict", [["m", ["mod", "os"]]]]]])
+        if src.chance(0.3):
+            values.append(src.choice(self.ANY_EXTRA))
         plans = []
         for _ in range(n_threads):
             acts = []
